@@ -129,6 +129,19 @@ func (e *Engine) input(name value, bits int) value {
 	return e.sol.Input(e.concStr(name, "input name"), bits)
 }
 
+// schedPoint is a harness-level scheduling point (verifSched): a preemption opportunity whose position in
+// the schedule is recorded so that the native sequencer can force the same order.
+func (e *Engine) schedPoint(label string) {
+	e.yieldNow()
+	// goroutines started inside the library cannot be named by the harness: the native sequencer binds
+	// "g<k>" to the first unidentified goroutine that arrives with the expected label
+	who := "g" + strconv.Itoa(e.cur.id)
+	if e.cur.labelled || e.cur.id == 0 {
+		who = strconv.Itoa(e.cur.label)
+	}
+	e.schedTrace = append(e.schedTrace, who+":"+label)
+}
+
 func init() {
 	api := func(name string, f func(e *Engine, args []value) value) {
 		verifAPI[name] = func(e *Engine, fn *ssa.Function, args []value) (value, bool) { return f(e, args), true }
@@ -260,14 +273,7 @@ func init() {
 	})
 	api("verifGoDone", func(e *Engine, a []value) value { return nil })
 	api("verifSched", func(e *Engine, a []value) value {
-		e.yieldNow()
-		// goroutines started inside the library cannot be named by the harness: the native sequencer binds
-		// "g<k>" to the first unidentified goroutine that arrives with the expected label
-		who := "g" + strconv.Itoa(e.cur.id)
-		if e.cur.labelled || e.cur.id == 0 {
-			who = strconv.Itoa(e.cur.label)
-		}
-		e.schedTrace = append(e.schedTrace, who+":"+e.concStr(a[0], "sched label"))
+		e.schedPoint(e.concStr(a[0], "sched label"))
 		return nil
 	})
 	api("verifSymbolic", func(e *Engine, a []value) value { return true })
